@@ -545,6 +545,48 @@ type Twice struct {
 	Zip  string `gorm:"column:own_postcode"`
 }
 
+// ---- T22: several fields mapped to ONE column.  Plain structs (no methods, so that they can also be
+// embedded anonymously into reflect.StructOf types) whose fields collide with fields of the model ----
+type BaseA struct {
+	Title string
+	Note  string
+	Rank  int64
+}
+type BaseB struct {
+	Title string `gorm:"column:headline"`
+	Qty   int32
+	Note  string
+}
+type BaseK struct { // carries the key, gorm.Model style
+	ID    uint `gorm:"primaryKey"`
+	Title string
+	Note  string
+}
+type WrapA struct { // anonymous embedding twice: leaves at depth 3
+	BaseA
+	Depth int16
+}
+
+// the embedded struct FIRST, the model's own fields after it
+type Shadow struct {
+	BaseK        // anonymous: id, title, note
+	Mark  string `gorm:"uniqueIndex"`
+	Title string // shadows BaseK.Title (Go's own promotion rule)
+	Memo  string `gorm:"column:note"` // another Go name, the same column as BaseK.Note
+	In    BaseA  `gorm:"embedded"`    // title, note once more at depth 2 (lose), rank (its own)
+	V     int64
+}
+
+// the model's own fields first; the same struct anonymously at depth 2 and, through WrapA, at depth 3
+type Shadow2 struct {
+	ID    int64  `gorm:"primaryKey"`
+	Mark  string `gorm:"uniqueIndex"`
+	Rank  int32  // another Go type than BaseA.Rank
+	WrapA        // depth 3: title, note, rank; depth 2: depth
+	*BaseB       // depth 2, through a pointer: headline, qty, note (beats WrapA.BaseA.Note)
+	Title string // declared last, depth 1: beats WrapA.BaseA.Title
+}
+
 // registry (slices and pointers are built by reflection from the element type)
 var registry = []struct {
 	Name string
@@ -554,6 +596,7 @@ var registry = []struct {
 	{"Sers", reflect.TypeOf(Sers{})}, {"Embs", reflect.TypeOf(Embs{})}, {"Defs", reflect.TypeOf(Defs{})},
 	{"Comp", reflect.TypeOf(Comp{})}, {"Keyed", reflect.TypeOf(Keyed{})}, {"StrKey", reflect.TypeOf(StrKey{})},
 	{"UnixU", reflect.TypeOf(UnixU{})}, {"Twice", reflect.TypeOf(Twice{})}, {"Loc", reflect.TypeOf(Loc{})}, {"Uid", reflect.TypeOf(Uid{})}, {"PTimes", reflect.TypeOf(PTimes{})}, {"Modeled", reflect.TypeOf(Modeled{})}, {"Defs2", reflect.TypeOf(Defs2{})}, {"SDef", reflect.TypeOf(SDef{})}, {"CDef", reflect.TypeOf(CDef{})}, {"PEmb", reflect.TypeOf(PEmb{})}, {"NumSer", reflect.TypeOf(NumSer{})}, {"Customs", reflect.TypeOf(Customs{})},
+	{"Shadow", reflect.TypeOf(Shadow{})}, {"Shadow2", reflect.TypeOf(Shadow2{})},
 }
 
 func typeByName(n string) reflect.Type {
